@@ -10,7 +10,7 @@
 
    SET_OF_decode_oer (skeletons/constr_SET_OF_oer.c), statement by statement:
 
-       st = CALLOC(1, specs->struct_size);                         <- [hd] bytes
+       st = CALLOC(1, specs->struct_size);                         <- [lhd] bytes
        len_size = oer_fetch_quantity(ptr, size, &length);          <- [fetch_qty]
           0 -> RC_WMORE;  -1 -> RC_FAIL;  ADVANCE(len_size); ctx->left = length;
        base_ptr = ptr; base_ctx_left = ctx->left;
@@ -99,7 +99,7 @@ Definition fetch_qty (bs : list Z) : qres :=
   end.
 
 (* ---------------- the decoders ---------------- *)
-Definition hd : Z := 48.        (* A_SEQUENCE_OF(x) + asn_struct_ctx_t on LP64 *)
+Definition lhd : Z := 48.        (* A_SEQUENCE_OF(x) + asn_struct_ctx_t on LP64 *)
 
 Fixpoint has (w : nat) (bs : list Z) : bool :=
   match w, bs with
@@ -140,7 +140,7 @@ Fixpoint oll_dec (g : gpol) (F : nat) (t : lty) (bs : list Z) (m : meter) {struc
       if has w bs then mkR ROk (skipn w bs) (Z.of_nat w) (m_malloc m esz)
       else mkR RMore bs 0 m
   | LList e =>
-      let m1 := m_malloc m hd in
+      let m1 := m_malloc m lhd in
       match fetch_qty bs with
       | QMore => mkR RMore bs 0 m1
       | QFail => mkR RFail bs 0 m1
@@ -163,7 +163,7 @@ Fixpoint wf (t : lty) : Prop :=
 Fixpoint cb (t : lty) : Z :=
   match t with
   | LLeaf _ esz => esz
-  | LList e => if zw e then hd + 202 * (cb e + 16) + 16 else hd + cb e + 16
+  | LList e => if zw e then lhd + 202 * (cb e + 16) + 16 else lhd + cb e + 16
   end.
 
 Fixpoint ca (t : lty) : Z :=
